@@ -125,9 +125,10 @@ class DataManager(MpfController):
                 time.sleep(0.2)
             self._dirty.clear()
 
-            data = copy.deepcopy(self.data)
             # save data
             try:
+                # the copy can fail as well (e.g. when the owner changes the data while it is copied)
+                data = copy.deepcopy(self.data)
                 FileManager.save(self.filename, data)
             except Exception as e:  # pylint: disable=broad-exception-caught
                 # If the file writer has an exception handle it here. Otherwise
